@@ -107,9 +107,23 @@ impl SlotBlockData {
         debug_assert_eq!(shred.payload().header.slot, self.slot);
         let block_data = self
             .repaired
-            .entry(hash)
+            .entry(hash.clone())
             .or_insert_with(|| BlockData::new(self.slot));
-        block_data.add_shred(shred, shredder)
+        let result = block_data.add_shred(shred, shredder);
+        // the last-slice flag of a shred is signed by the leader but not bound to `hash`;
+        // never keep or announce a block under a hash it does not have
+        if let Ok(Some(BlockstoreEvent::Block { block_info, .. })) = &result
+            && block_info.hash != hash
+        {
+            warn!(
+                "repaired shreds for block {} in slot {} reconstruct a different block",
+                hash.short_hex(),
+                self.slot
+            );
+            self.repaired.remove(&hash);
+            return Err(AddShredError::Equivocation);
+        }
+        result
     }
 
     /// Ingests a slice that the local node produced itself (as the leader).
